@@ -50,25 +50,7 @@ def gen_case(seed, tier):
     return pre
 
 
-class Fork:
-    """A copy of the world right before the victim command."""
-
-    def __init__(self, H):
-        self.H = H
-        self.state0 = H.W.state.copy()
-        self.env0 = copy.deepcopy(H.W.env)
-        self.snaps0 = [copy.copy(s) for s in H.snaps]
-        self.orphans0 = H.orphans_possible
-        self.nproc0 = H.W.nproc
-
-    def restore(self):
-        H = self.H
-        H.W.state = self.state0.copy()
-        H.W.env = copy.deepcopy(self.env0)
-        H.W.nproc = self.nproc0
-        H.snaps = [copy.copy(s) for s in self.snaps0]
-        H.orphans_possible = self.orphans0
-        H.viol = []
+Fork = history.Fork
 
 
 def run_victim(H, victim, profile):
